@@ -141,14 +141,15 @@ type Cfg struct {
 	Closable  bool    `json:"closable"`
 	WarmUp    bool    `json:"warmup"`
 	Pools     int     `json:"pools"`
+	OtherLong bool    `json:"other_long,omitempty"` // pools other than the first run a long paced profile with unbounded ammo
 	Bound     int     `json:"bound"`
 	Advance   bool    `json:"advance"`
 	AdvanceMs int64   `json:"advance_ms,omitempty"`
 }
 
 func (c Cfg) Name() string {
-	return fmt.Sprintf("%s|startup=%s|rps=%s|perinst=%v|ammo=%d|discard=%v|shot=%v|fault=%s@%d|cancel=%v%v|pools=%d|closable=%v|warm=%v|adv=%v",
-		c.Prop, c.Startup, c.RPS, c.PerInst, c.Ammo, c.Discard, c.ShotMs, c.Fault.Kind, c.Fault.Pos, c.Cancel, c.CancelMs, c.Pools, c.Closable, c.WarmUp, c.Advance)
+	return fmt.Sprintf("%s|startup=%s|rps=%s|perinst=%v|ammo=%d|discard=%v|shot=%v|fault=%s@%d|cancel=%v%v|pools=%d|closable=%v|warm=%v|adv=%v|otherlong=%v",
+		c.Prop, c.Startup, c.RPS, c.PerInst, c.Ammo, c.Discard, c.ShotMs, c.Fault.Kind, c.Fault.Pos, c.Cancel, c.CancelMs, c.Pools, c.Closable, c.WarmUp, c.Advance, c.OtherLong)
 }
 
 type poolState struct {
@@ -230,6 +231,10 @@ func (r *run) scenario(x *vs.X) func(end, msg string) error {
 		}
 		r.pools = append(r.pools, w)
 		rps := c.RPS
+		if pi > 0 && c.OtherLong {
+			rps = cst(1, 600000)
+			w.Items = -1
+		}
 		conf.Pools = append(conf.Pools, engine.InstancePoolConfig{
 			ID:         fmt.Sprintf("p%d", pi),
 			Provider:   NewProv(w),
@@ -555,6 +560,11 @@ func (r *run) checkC05(end, msg string) error {
 		return fmt.Errorf("QUIESCENCE: %d instances started, %d finished", s, fi)
 	}
 	for pi, w := range r.pools {
+		for _, sh := range w.Shots {
+			if sh.At.After(r.runRetAt) {
+				return fmt.Errorf("RUNAWAY: pool %d fired a request at %s, after Run had returned at %s", pi, sh.At.Sub(r.t0), r.runRetAt.Sub(r.t0))
+			}
+		}
 		if w.ProvRunEnd == 1 || w.AggRunEnd == 1 {
 			return fmt.Errorf("QUIESCENCE: pool %d provider(%d)/aggregator(%d) still running after Wait", pi, w.ProvRunEnd, w.AggRunEnd)
 		}
